@@ -1848,7 +1848,7 @@ func funcGetpath(v, p any) any {
 	u := v
 	for _, x := range path {
 		switch v.(type) {
-		case nil, []any, map[string]any:
+		case nil, []any, map[string]any, string:
 			v = funcIndex2(nil, v, x)
 			if err, ok := v.(error); ok {
 				return &func1WrapError{"getpath", u, p, err}
